@@ -270,6 +270,12 @@ def rule_N3(ctx):
         want = {"_export_name": "self.export_name", "_safe_name": "self.safe_name", "_path": "self.path", "_parent": "self.parent", "name": "self.name"}
         for k, v in want.items():
             ctx.ob("N3", cs[0] if cs else fn, f"{q}: generalized sample receives {k} = {v}", kw.get(k) == v, f"is {kw.get(k)}", inst=f"{q}:{k}")
+    # the name an AKAI file goes by (listing, pairing, output file) is the one of its directory entry, not the copy inside the file
+    for path, q in (("smpl_extract/akai/sample.py", "AkaiSample.name"), ("smpl_extract/akai/program.py", "Program.name")):
+        fnm = ctx.fn(path, q, "N3")
+        rps = [p_ for p_ in run_paths(ctx, fnm, rule="N3") if p_.end == "return"]
+        ok = bool(rps) and all(p_.ret is not None and p_.ret.key() == "self.file_name" for p_ in rps)
+        ctx.ob("N3", fnm, f"{q} is the directory entry's name (file_name)", ok, f"{[p_.ret.key() if p_.ret is not None else None for p_ in rps]}", inst=f"{q}:source")
     cb = ctx.fn("smpl_extract/generalized/sample.py", "combine_stereo", "N3")
     from .sem import record_fields
     nn = cb.args.args[2].arg
